@@ -387,6 +387,10 @@ func (g *G) fastMath() []string {
 func vecLike(t, shape *am.Type) *am.Type { return shape.WithScalar(t) }
 
 func (g *G) genInst(c *cur) {
+	if g.cfg.GEPBias && g.chance("gepbias", 1, 2) {
+		g.genGEP(c)
+		return
+	}
 	switch g.intn("opclass", 22) {
 	case 0, 1: // integer arithmetic
 		t := c.typeWhere(func(t *am.Type) bool { return t.IsIntOrIntVec() }, func() *am.Type { return g.intType() })
@@ -749,18 +753,24 @@ func (g *G) genGEP(c *cur) {
 			fs, _, _ := g.body(t)
 			t = fs[f]
 		} else {
-			it := g.pick("gepit", []string{"i32", "i64", "i64", "i8", "i16"})
-			ity := am.I(map[string]uint64{"i32": 32, "i64": 64, "i8": 8, "i16": 16}[it])
+			it := g.pick("gepit", []string{"i32", "i64", "i64", "i8", "i16", "i1", "i128"})
+			ity := am.I(map[string]uint64{"i32": 32, "i64": 64, "i8": 8, "i16": 16, "i1": 1, "i128": 128}[it])
 			if vlen != 0 && g.chance("vecidx", 1, 3) {
 				vt := am.V(vlen, ity)
 				vt.Scalable = scal
 				iv = c.val(vt)
+				if !scal && g.chance("constvecidx", 1, 2) {
+					iv = &am.Value{K: am.VConst, C: g.vecIndexConst(vt)}
+				}
 				gi.VecLen, gi.Scalable = vlen, scal
 			} else if vlen == 0 && g.chance("newvecidx", 1, 10) && !g.off("gep-vector-index") {
 				// a vector index turns the result into a vector of pointers
 				vlen = []uint64{2, 4}[g.intn("nvl", 2)]
 				vt := am.V(vlen, ity)
 				iv = c.val(vt)
+				if g.chance("constvecidx2", 1, 2) {
+					iv = &am.Value{K: am.VConst, C: g.vecIndexConst(vt)}
+				}
 				gi.VecLen = vlen
 				g.feat("gep/vector-index-on-scalar-base")
 			} else {
